@@ -1,7 +1,7 @@
 //! Engine for encoder-history properties (C04, C12 and the encoder parts of C06-C09, C18).
 
 use crate::drive_dec::{BomMode, DecDriver, DecHistory, Sink};
-use crate::drive_enc::{describe, EFaultKind, ERes, ESink, EncDriver, EncHistory, EncOutcome, Src, CAP_QUERY};
+use crate::drive_enc::{describe, EFaultKind, ERes, ESink, EncDriver, EncHistory, EncOutcome, Src, CAP_QUERY, CAP_QUERY_EXACT};
 use crate::fw::{self, par_run, Ctx, Stats, Violation};
 use crate::hist_enc::{self, EProfile};
 use crate::model_enc::{self, enc_algo_for, EncAlgo};
@@ -622,5 +622,6 @@ pub fn verdict_c18(h: &EncHistory, sc: &mut EScratch, st: &mut Stats, enumerated
 
 pub fn query_caps(repl: bool) -> Vec<Vec<usize>> {
     let m = if repl { 14 } else { 4 };
-    vec![vec![CAP_QUERY], vec![m, CAP_QUERY], vec![CAP_QUERY, m], vec![m + 1, m, CAP_QUERY]]
+    let q = CAP_QUERY_EXACT;
+    vec![vec![q], vec![m, q], vec![q, m], vec![m + 1, m, q]]
 }
